@@ -192,10 +192,21 @@ func AddRoles(p *progen.Prog, used progen.Used, e *Entry, t *progen.Type, id str
 			addCall(p, used, e, role, progen.Equal(ts, id), ukey("equal", t, t))
 		case "equalc":
 			addCall(p, used, e, role, progen.EqualCurried(ts, id), ukey("equal", t))
+			if _, ok := e.Funcs[role]; ok {
+				// the partially applied function itself, to be applied more than once
+				w := "EqualcP" + id
+				p.Add("func %s(a %s) func(%s) bool {\n\treturn deriveEqualC%s(a)\n}\n", w, ts, ts, id)
+				e.Funcs["equalcp"] = w
+			}
 		case "compare":
 			addCall(p, used, e, role, progen.Compare(ts, id), ukey("compare", t, t))
 		case "comparec":
 			addCall(p, used, e, role, progen.CompareCurried(ts, id), ukey("compare", t))
+			if _, ok := e.Funcs[role]; ok {
+				w := "ComparecP" + id
+				p.Add("func %s(a %s) func(%s) int {\n\treturn deriveCompareC%s(a)\n}\n", w, ts, ts, id)
+				e.Funcs["comparecp"] = w
+			}
 		case "hash":
 			addCall(p, used, e, role, progen.Hash(ts, id), ukey("hash", t))
 		case "clone":
